@@ -1,5 +1,5 @@
 """C22 C23 C24 C29 C30 C31 C32: the console UI driven in process, judged by TraceUI (spec/UI.tla)."""
-import random, itertools
+import random, itertools, re
 from ..runner import Check
 from .. import core
 from ..gen_rv import r_type, i_type, s_type, b_type, u_type, j_type, word_bytes
@@ -46,9 +46,22 @@ NUM_SPECIAL = [("9223372036854775807", {"kind": "num", "v": -1}), ("922337203685
                ("99999999999999999999", {"kind": "bad", "v": 0})]
 
 
+def describe_arg(t):
+    """argument description for the specification (TLC strings are opaque, its integers 32 bit): decimal literals
+    the command parser accepts are numbers (2^63-1 is written as -1 = 'beyond every listing'), the rest is not"""
+    if re.fullmatch(r"\+?[0-9]+", t) and "_" not in t:
+        v = int(t)
+        if v < 1 << 30:
+            return {"kind": "num", "v": v}
+        if v < 1 << 63:
+            return {"kind": "num", "v": -1}
+        return {"kind": "bad", "v": 0}
+    return {"kind": "str", "v": 0}
+
+
 def cmd(gid, toks, args=None, seps=None, pat="", filler="0"):
     return {"case": gid, "op": "cmd", "toks": toks, "seps": seps or [], "filler": filler,
-            "args": args if args is not None else [{"kind": "str", "v": 0} for _ in toks[1:]], "pat": pat}
+            "args": args if args is not None else [describe_arg(t) for t in toks[1:]], "pat": pat}
 
 
 class UICheck(Check):
@@ -62,7 +75,13 @@ class UICheck(Check):
     whys = None
     # the model also says how the mode stack evolves, which lines a view shows and that the emulator's cursor
     # follows the instruction pointer; these are checked on every session and reported, but belong to no listed property
-    extra_whys = ("modestack", "ipcursor", "window")
+    extra_whys = ("modestack", "ipcursor", "window", "marks")
+
+    @property
+    def constants(self):
+        # only the classes the check owns (and the beyond-property classes) are judged, so that a disagreement of another
+        # property's class in the same event cannot hide them
+        return "CONSTANT Focus = {%s}\n" % ", ".join('"%s"' % w for w in sorted(set(self.whys or ()) | set(self.extra_whys if self.whys else ())))
 
     def stateful(self):
         return True
@@ -233,6 +252,20 @@ class C31(UICheck):
                     for entry in range(0, 4 * nwords, 4):
                         session(kind, [cmd("", ["move", str(a), str(b)], [{"kind": "num", "v": a}, {"kind": "num", "v": b}]),
                                        cmd("", ["entry"]), cmd("", ["find", "addi"], pat="addi")], entry=entry)
+                        # every navigation command used before AND after the listing changed (nothing may be remembered
+                        # across a move), the second time from another cursor position
+                        mv = cmd("", ["move", str(a), str(b)], [{"kind": "num", "v": a}, {"kind": "num", "v": b}])
+                        session(kind, [cmd("", ["entry"]), cmd("", ["find", "addi"], pat="addi"), mv, cmd("", ["goto", "2"]),
+                                       cmd("", ["entry"]), cmd("", ["find", "addi"], pat="addi"), mv, cmd("", ["entry"]),
+                                       cmd("", ["up", "1"]), cmd("", ["find", "Block"], pat="Block")], entry=entry)
+        # ... and around instruction moves inside a block (kind 0: four independent instructions at lines 1-4)
+        for a in range(1, 5):
+            for b in range(1, 5):
+                if a != b:
+                    for entry in (0, 4, 12):
+                        mv = cmd("", ["move", str(a), str(b)])
+                        session(0, [cmd("", ["entry"]), cmd("", ["find", "x3"], pat="x3"), mv, cmd("", ["goto", "0"]), cmd("", ["entry"]),
+                                    cmd("", ["find", "x3"], pat="x3"), cmd("", ["find", "x3"], pat="x3")], entry=entry)
         return gs
 
 
